@@ -400,6 +400,78 @@ func checkC01(w *Worker) {
 			}
 		}
 	})
+	// a book beyond any "small book" shortcut (80 recipes on three levels, more than 64) resolved as thread "main" of the
+	// scheduler: if the resolver works in goroutines, their channel and lock operations are explored (one departure from
+	// the default schedule); on the pinned tree this is one execution per entry point
+	// (two preemptions on these books are 900 000 executions and 18 minutes: one, in both tiers)
+	w.Explore("large-book-under-the-scheduler", ExploreOpts{ShardDepth: 4, Budgets: map[string]int{"env:maporder": 0, "appsched": 1}}, func(x *Exec) {
+		api := x.Choose(2, "input:api")
+		shape := x.Choose(3, "input:shape-of-the-book") // diverse, diverse declared backwards, seventy recipes sharing one sub-recipe
+		book := absBook{}
+		for i := 0; i < 20; i++ {
+			book = append(book, absRecipe{fmt.Sprintf("base-%02d", i), []absIng{{fmt.Sprintf("el-%02d", i%7), float64(1 + i%3)}, {"cal", float64(i)}}})
+		}
+		for i := 0; i < 30; i++ {
+			book = append(book, absRecipe{fmt.Sprintf("mid-%02d", i), []absIng{{fmt.Sprintf("base-%02d", i%20), 2}, {fmt.Sprintf("base-%02d", (i*7+3)%20), -1}, {"salt", 1}}})
+		}
+		for i := 0; i < 30; i++ {
+			book = append(book, absRecipe{fmt.Sprintf("meal-%02d", i), []absIng{{fmt.Sprintf("mid-%02d", i), 1}, {fmt.Sprintf("mid-%02d", (i*11+5)%30), 3}, {fmt.Sprintf("base-%02d", i%20), 1}}})
+		}
+		if shape == 1 {
+			for l, r := 0, len(book)-1; l < r; l, r = l+1, r-1 {
+				book[l], book[r] = book[r], book[l]
+			}
+		}
+		if shape == 2 {
+			// forced to collide: every top-level recipe goes through the same sub-recipe
+			book = absBook{{"base-00", []absIng{{"el-0", 2}, {"cal", 3}}}, {"base-01", []absIng{{"el-1", 1}, {"cal", 5}}},
+				{"mid-00", []absIng{{"base-00", 2}, {"base-01", -1}, {"salt", 1}}}}
+			for i := 0; i < 70; i++ {
+				book = append(book, absRecipe{fmt.Sprintf("meal-%02d", i), []absIng{{"mid-00", float64(1 + i%3)}, {fmt.Sprintf("base-%02d", i%2), 1}, {fmt.Sprintf("el-%d", i%5), 2}}})
+			}
+		}
+		want := refResolve(book)
+		db := book.toDB()
+		installMapOrder(x, "env:maporder")
+		var err error
+		finished := false
+		s := NewSched(x)
+		s.Class = "appsched"
+		s.Go("main", func() {
+			err = resolveVia(api, db, 10)
+			finished = true
+		})
+		func() {
+			defer uninstallMapOrder()
+			s.Run()
+		}()
+		if s.Stalled {
+			x.Case("skip: not schedulable", false)
+			x.Note("schedule_exploration_abandoned", 1)
+			return
+		}
+		x.Case(fmt.Sprint("large", api, shape, len(s.Trace)), true)
+		x.Note("scheduler_transitions", int64(len(s.Trace)))
+		rep := map[string]interface{}{"api": apiNames[api], "recipes": len(book), "schedule": s.Trace}
+		if len(s.Panics) > 0 || !finished || err != nil {
+			x.Violate("C01|large-book|resolution-fails-or-does-not-return", fmt.Sprintf("80 recipes on three levels via %s, schedule %v: error %v, panics %v, returned: %v (%v)", apiNames[api], tailStr(fmt.Sprint(s.Trace), 600), err, s.Panics, finished, s.ParkedAtEnd()), rep)
+			return
+		}
+		obs := ""
+		for _, r := range book {
+			n := db[r.Name]
+			if n == nil {
+				x.Violate("C01|large-book|recipe-lost", "recipe "+r.Name+" missing after resolve", rep)
+				return
+			}
+			obs += elementsString(n.Elements)
+			if msg := compareResolved(n.Elements, want[r.Name]); msg != "" {
+				x.Violate("C01|large-book|wrong-resolution", fmt.Sprintf("80 recipes on three levels via %s, schedule of the resolver's goroutines %v:\nrecipe %s resolved to %s, expected %s: %s", apiNames[api], tailStr(fmt.Sprint(s.Trace), 800), r.Name, elementsString(n.Elements), refString(want[r.Name]), msg), rep)
+				return
+			}
+		}
+		x.Obs(fmt.Sprint(hash64([]byte(obs))))
+	})
 	earlierCalls = true
 	w.Explore("dag-k3-L1-after-an-earlier-call", ExploreOpts{ShardDepth: 4, Budgets: map[string]int{"env:maporder2": 0}}, body(3, 1, []float64{1, -2}))
 	w.Explore("dag-k2-L2-after-an-earlier-call", ExploreOpts{ShardDepth: 4, Budgets: map[string]int{"env:maporder2": 0}}, body(2, 2, []float64{1, -2}))
